@@ -603,5 +603,17 @@ def main():
     print("OK property=C11 tier=%s cases=%d obligations=%d wall=%.0fs" % (tier, len(results), cov["obligations"], wall))
 
 
+def _guarded_main():
+    """an internal error of the machinery is never a verdict: exit 2 (inconclusive), not a traceback with exit 1"""
+    try:
+        main()
+    except SystemExit:
+        raise
+    except BaseException:
+        import traceback
+        print("INCONCLUSIVE: internal error of the check: " + traceback.format_exc()[-1500:])
+        sys.exit(2)
+
+
 if __name__ == "__main__":
-    main()
+    _guarded_main()
